@@ -30,6 +30,7 @@ ALLOWED_AXIOMS = {'propext', 'Classical.choice', 'Quot.sound'}
 FORBIDDEN = re.compile(r'\bsorry\b|\badmit\b|^\s*axiom\s|native_decide|bv_decide|implemented_by|\bunsafe\s|maxHeartbeats\s+0\b')
 
 sys.path.insert(0, HERE)
+sys.path.insert(1, os.path.join(HERE, 'engines'))
 
 
 class Infra(Exception):
